@@ -127,6 +127,9 @@ class Universe:
                 body.append("    " + self.field_line(f))
             if c.falsy:
                 body.append("    def __len__(self):\n        return 0")
+                if len(c.name) % 2:
+                    # an empty, iterable container-like node (seeded change C12-10: iterable nodes taken for sequences)
+                    body.append("    def __iter__(self):\n        return iter(())")
             if not body:
                 body.append("    pass")
             L += body
@@ -170,10 +173,36 @@ class Universe:
             return "()"
         raise ValueError("required child has no default")
 
+    def shadow_source(self):
+        """the same class names and bases with other fields (one defaulted property each): declared, classified and
+        instantiated BEFORE the real classes in the same module, as a notebook / REPL / reload would - whatever the library
+        remembers per class must be remembered per class OBJECT, not per name (seeded changes C01-10, C02-10, C16-10)"""
+        L = ["from dataclasses import dataclass, field", "from pyoak.node import ASTNode", ""]
+        for c in self.classes:
+            L.append("@dataclass(frozen=True)")
+            L.append(f"class {c.name}({', '.join(self.direct_bases(c.name)) or 'ASTNode'}):")
+            L.append(f"    zz_shadow_{len(L)}: int = field(default=0, kw_only=True)")
+            L.append("")
+        for c in self.classes:
+            L.append(f"_n = {c.name}()")
+            L.append("list(_n.get_properties()); list(_n.get_child_nodes()); list(_n.dfs()); _n.as_dict(); _n.to_properties_dict()")
+            L.append(f"{c.name}.get_child_fields(); {c.name}.get_property_fields()")
+        L.append("del _n")
+        return "\n".join(L)
+
     def load(self):
         if self.module is None:
             m = types.ModuleType(f"verif_universe_{self.uid}")
             sys.modules[m.__name__] = m
+            if self.uid % 3 == 1:
+                try:
+                    exec(compile(self.shadow_source(), m.__name__, "exec", dont_inherit=True), m.__dict__)
+                except Exception:  # noqa: BLE001 - the shadow is only a disturbance; the real classes are what is tested
+                    pass
+                for c in self.classes:
+                    m.__dict__.pop(c.name, None)       # forward references must not resolve to a shadow
+                import gc
+                gc.collect()
             exec(compile(self.source(), m.__name__, "exec", dont_inherit=True), m.__dict__)
             self.module = m
         return self.module
@@ -311,6 +340,9 @@ def gen_universe(rng, n_roots=None, max_levels=3, rich=True, force_falsy=False):
     future = rng.random() < 0.5
     plan = []
     letters = iter("ABCDEFGHIJKLMNOPQRSTUVWXYZ")
+    if rng.random() < 0.3:
+        # one class family whose names start with an underscore ("private" node classes are node classes: seeded change C07-10)
+        letters = iter(["_A", "_B", "_C", "_D", "_E", "_F", "_G", "_H", "_I", "_J", "_K", "_L"] + list("MNOPQRSTUVWXYZ"))
     for _ in range(n_roots):
         root = next(letters) + tag
         plan.append((root, None))
